@@ -203,6 +203,20 @@ func (w *World) collectMods(pkg *packages.Package, c *Ctx, n ast.Node, ms *modSe
 				ms.emits = true
 			}
 			if s.Op == token.AND {
+				if id, ok := unparen(s.X).(*ast.Ident); ok {
+					// the address of a local variable: the variable lives in a cell (or, for a struct, in the field heaps)
+					// that this activation allocates
+					if v, ok := info.ObjectOf(id).(*types.Var); ok && !v.IsField() && v.Parent() != nil && v.Parent() != v.Pkg().Scope() {
+						ms.allocs = true
+						if st, named, isPtr := structOf(v.Type()); st != nil && !isPtr && !opaqueNamed(named) {
+							for i := 0; i < st.NumFields(); i++ {
+								ms.markFresh(fieldKey(named, st.Field(i).Name()))
+							}
+						} else {
+							ms.markFresh("P:" + typeKey(v.Type()))
+						}
+					}
+				}
 				if _, ok := unparen(s.X).(*ast.CompositeLit); ok {
 					ms.allocs = true
 					if t := info.TypeOf(s.X); t != nil {
@@ -243,6 +257,24 @@ func (w *World) collectMods(pkg *packages.Package, c *Ctx, n ast.Node, ms *modSe
 				}
 			}
 		case *ast.CallExpr:
+			if sel, ok := unparen(s.Fun).(*ast.SelectorExpr); ok {
+				// a pointer-receiver method called on a local struct variable takes its address implicitly
+				if id, ok := unparen(sel.X).(*ast.Ident); ok {
+					if v, ok := info.ObjectOf(id).(*types.Var); ok && !v.IsField() && v.Parent() != nil && v.Pkg() != nil && v.Parent() != v.Pkg().Scope() {
+						if fn, ok := info.ObjectOf(sel.Sel).(*types.Func); ok {
+							if sig, ok := fn.Type().(*types.Signature); ok && sig.Recv() != nil {
+								if _, isPtrRecv := types.Unalias(sig.Recv().Type()).(*types.Pointer); isPtrRecv {
+									if _, varIsPtr := types.Unalias(v.Type()).Underlying().(*types.Pointer); !varIsPtr {
+										if _, isIface := types.Unalias(v.Type()).Underlying().(*types.Interface); !isIface {
+											ms.allocs = true
+										}
+									}
+								}
+							}
+						}
+					}
+				}
+			}
 			w.callMods(pkg, c, s, ms, callees)
 		}
 		return true
